@@ -207,6 +207,12 @@ func (a *AreaMembers) MergeFrom(other AreaMembers) {
 		a.ids = a.ids[0:len(other.ids)]
 	}
 	for i, ids := range other.ids {
+		if ids == nil {
+			// A polygon member: PathIDs() distinguishes these by a nil entry,
+			// which truncating (or make() above) wouldn't give us.
+			a.ids[i] = nil
+			continue
+		}
 		j := copy(a.ids[i], ids)
 		if j < len(ids) {
 			a.ids[i] = append(a.ids[i], ids[j:]...)
